@@ -169,7 +169,12 @@ def run_case(case, lazy):
         bw = {dummies[n]: tuple(w) for n, w in case["bw2"].items()}
         (la, ra), (lb, rb) = (tuple(case["bw2"].get(order[0], (0, 0))), tuple(case["bw2"].get(order[1], (0, 0))))
 
+        strict = lazy and (op == "ufunc2_overlap" or case.get("dask_mode") == "parallelized")
+
         def f2(x):
+            if strict and not isinstance(x, np.ndarray):
+                # under map_overlap / dask="parallelized" the kernel is promised plain numpy blocks
+                raise TypeError("kernel was handed a " + type(x).__name__ + " instead of a numpy block")
             na, nb = x.shape[-2] - la - ra, x.shape[-1] - lb - rb
             return x[..., 0:na, 0:nb] + 2.0 * x[..., la + ra:la + ra + na, lb + rb:lb + rb + nb]
         return grid.apply_as_grid_ufunc(f2, da, axis=[list(order)], signature=sig, boundary_width=bw or None,
@@ -177,7 +182,13 @@ def run_case(case, lazy):
                                         map_overlap=(op == "ufunc2_overlap") and lazy)
     a = layout.axis(ax)
     sig = f"(Q:{case['from']})->(Q:{case['from']})"
-    return grid.apply_as_grid_ufunc(lambda x: x * 2.0 + 1.0, da, axis=[[ax]], signature=sig,
+    strict1 = lazy and (op == "ufunc_overlap" or case.get("dask_mode") == "parallelized")
+
+    def f1(x):
+        if strict1 and not isinstance(x, np.ndarray):
+            raise TypeError("kernel was handed a " + type(x).__name__ + " instead of a numpy block")
+        return x * 2.0 + 1.0
+    return grid.apply_as_grid_ufunc(f1, da, axis=[[ax]], signature=sig,
                                     boundary_width={"Q": (0, 0)},
                                     dask=(case.get("dask_mode", "allowed") if op == "ufunc" else "allowed") if lazy else "forbidden",
                                     map_overlap=(op == "ufunc_overlap") and lazy)
